@@ -121,7 +121,7 @@ impl Exec {
                         let fallible = crate::gen::fallible(*fam);
                         let mut kids = Vec::with_capacity(*n);
                         for (i, lp) in plan.leaves.iter().enumerate() {
-                            let is_stream = fam.is_stream() && !(matches!(fam, Family::WaitUntilS) && i == 1);
+                            let is_stream = fam.is_stream() && !(matches!(fam, Family::WaitUntilS) && i >= 1);
                             kids.push(w.new_leaf(ROOT, lp.script.clone(), lp.term, is_stream, fallible));
                         }
                         if *n > 22 {
@@ -491,6 +491,50 @@ impl Exec {
         }
     }
 
+    /// C03 / C19 only: poll the root again after its final result (after every stale waker was fired), once or
+    /// twice in half of the runs. A panic ("polled after completion") is a legitimate answer; the result is ignored.
+    fn afterlife(&mut self) {
+        let n = with(|w| {
+            let fam = w.node(ROOT).fam;
+            if !matches!(w.prop, "C03" | "C19") || matches!(fam, Family::FutGroup | Family::StreamGroup | Family::CoStream) {
+                return 0;
+            }
+            match w.ch.draw("afterlife", 4) {
+                0 | 1 => 0,
+                2 => 1,
+                _ => 2,
+            }
+        });
+        for _ in 0..n {
+            let gen = with(|w| {
+                w.afterlife = true;
+                w.stats.f_afterlife += 1;
+                w.emit(Ev::Fault { what: "poll after the final result", arg: 0 });
+                w.gen_newest
+            });
+            let waker = match &self.task_wk {
+                Some((g, wk)) if *g == gen => wk.clone(),
+                _ => task_waker(gen),
+            };
+            let mut cx = Context::from_waker(&waker);
+            let root = self.root.as_mut().unwrap();
+            let r = catch_unwind(AssertUnwindSafe(|| root.poll(&mut cx)));
+            let overflow = matches!(r.map_err(classify), Err(Caught::Overflow));
+            with(|w| {
+                for n in w.nodes.iter_mut() {
+                    n.in_poll = false;
+                }
+                w.afterlife = false;
+                if overflow {
+                    w.flag_current("livelock", || "a poll after the final result kept polling children without returning".into());
+                }
+            });
+            if self.violated() {
+                return;
+            }
+        }
+    }
+
     fn finish(&mut self) {
         with(|w| {
             w.suppress_faults = true;
@@ -500,6 +544,9 @@ impl Exec {
             let done = with(|w| w.root_done);
             if done && !self.violated() {
                 self.fire_all(FireCtx::AfterRootDone);
+            }
+            if done && !self.violated() {
+                self.afterlife();
             }
             self.drop_root();
         }
